@@ -556,7 +556,7 @@ func check(c Case, st *rig.Stats) error {
 }
 
 var stats = rig.NewStats("C09",
-	"(later additions: Router.Clean; removals that name every method a pattern has; one program in eight opens with the life of an interior node - pattern, longer pattern below it, first emptied by name, registered again, then Use; a second group with its own Use list to which router 0 can be added as well) rapid draws a program of 1-20 steps over two routers (one standalone and optionally added to a group, one made by Group.New), with and without WithTrace: Use, Group.Use, creation of Prefix / nested Prefix / Resource / Prefix.Resource objects with 0-2 middlewares, Handle through any object with 0-2 per-route middlewares, Remove. Each middleware factory records (name, method, pattern, router, wrapped handler id) at wrap time. After every step every live handler kind (each method, HEAD, OPTIONS, 405 of every live pattern; 404, OPTIONS *, TRACE, group not-found) is invoked and the middlewares that ran, outermost first, must equal the list computed from the statement (Use most recent first, then prefix calls outermost first with later arguments outermost, then the registration's); each wrapper must have exactly one factory record with the right method / pattern / router, and no (middleware, wrapped handler, method) triple may occur twice in the whole log. Non-trivial: a Use after a registration and a registration after a Use both occurred, or prefix nesting depth >= 2; distinct by hash of the case")
+	"(later additions: Router.Clean; removals that name every method a pattern has; one program in eight opens with the life of an interior node - pattern, longer pattern below it, first emptied by name, registered again, then Use; a second group with its own Use list to which router 0 can be added as well) rapid draws a program of 1-20 steps over two routers (one standalone and optionally added to a group, one made by Group.New), with and without WithTrace: Use, Group.Use, creation of Prefix / nested Prefix / Resource / Prefix.Resource objects with 0-2 middlewares, Handle through any object with 0-2 per-route middlewares, Remove. Each middleware factory records (name, method, pattern, router, wrapped handler id) at wrap time. After every step every live handler kind (each method, HEAD, OPTIONS, 405 of every live pattern; 404, OPTIONS *, TRACE, group not-found) is invoked and the middlewares that ran, outermost first, must equal the list computed from the statement (Use most recent first, then prefix calls outermost first with later arguments outermost, then the registration's); each wrapper must have exactly one factory record with the right method / pattern / router, and no (middleware, wrapped handler, method) triple may occur twice in the whole log. Non-trivial: a Use after a registration and a registration after a Use both occurred, or prefix nesting depth >= 2; distinct by hash of the case. Later additions to the generated domain: A third of the middleware lists are heads chain[:j] of one array (what lies behind j are live values of later calls); factories alternate between a Middleware object and types.MiddlewareFunc; one program in eight opens with a chain of 3-9 nested prefixes and 2-3 sibling prefixes below the deepest. Removal lists also hold names a removal ignores by contract (\"\", a blank, HEAD, OPTIONS, lower-case names), alone or beside real names.")
 
 func TestProp(t *testing.T) { rig.RunProp(t, stats, gen, check) }
 
